@@ -671,6 +671,61 @@ func c06RandomCase(r *verifh.Rand, garbage bool) verifh.Case {
 	return verifh.Case{Cfg: cfg, Ops: ops}
 }
 
+// c06LeftoverCase: a tree that crashes of the store's own operations can leave (blob directories that are
+// whole, half created, half removed, with temporary metadata files), then NewStore with every crash point of
+// its clean-up monitored (a second crash inside the recovery of the first), then a few operations.
+func c06LeftoverCase(r *verifh.Rand) verifh.Case {
+	keys := []string{"aa11", "aa22", "bb33"}
+	shard := r.Intn(3)
+	cfg := []string{"reboot=" + r.Pick("0", "1", "1"), "shard=" + strconv.Itoa(shard), "cap=100", "crash=all"}
+	p := newPather("", shard)
+	fs := []string{"fs", "d:complete", "d:incomplete"}
+	for _, k := range keys {
+		switch r.Intn(8) {
+		case 0, 1: // a complete blob
+			dir := p.dirPath(k, true)
+			fs = append(fs, "d:"+dir, "f:"+dir+"/data:"+r.Pick("x", "x6162", "x616263"))
+			if r.Chance(1, 3) {
+				fs = append(fs, "f:"+dir+"/_eviction_banned:x")
+			}
+			if r.Chance(1, 2) {
+				fs = append(fs, "f:"+dir+"/_vm0:x6d")
+			}
+			if r.Chance(1, 4) {
+				fs = append(fs, "f:"+dir+"/_vm0-tmp:x74")
+			}
+			if r.Chance(1, 4) {
+				fs = append(fs, "f:"+dir+"/_size:x33") // MarkComplete cut off before the immovable sidecars went
+			}
+		case 2, 3: // an incomplete blob with its reservation
+			dir := p.dirPath(k, false)
+			fs = append(fs, "d:"+dir, "f:"+dir+"/data:"+r.Pick("x", "x61", "x6162"), "f:"+dir+"/_size:"+r.Pick("x33", "x35", "x3132"))
+			if r.Chance(1, 3) {
+				fs = append(fs, "f:"+dir+"/_vi0:x69")
+			}
+		case 4: // Create cut off: the reservation not written, or not even created
+			dir := p.dirPath(k, false)
+			fs = append(fs, "d:"+dir, "f:"+dir+"/data:x")
+			if r.Chance(1, 2) {
+				fs = append(fs, "f:"+dir+"/_size:x")
+			}
+		case 5: // a removal cut off: the blob file gone, something else still there
+			dir := p.dirPath(k, r.Chance(1, 2))
+			fs = append(fs, "d:"+dir)
+			if r.Chance(2, 3) {
+				fs = append(fs, "f:"+dir+"/"+r.Pick("_vm0", "_eviction_banned", "_size")+":"+r.Pick("x", "x33"))
+			}
+		}
+	}
+	ops := [][]string{fs, {"op", "reboot", "mt=" + verifh.List(keys)}}
+	for j := 0; j < 1+r.Intn(3); j++ {
+		k := keys[r.Intn(len(keys))]
+		ops = append(ops, [][]string{{"op", "create", k, "2"}, {"op", "mc", k}, {"op", "delete", k}, {"op", "setmd", k, "_vm0", "x6e"},
+			{"op", "reboot", "mt=" + verifh.List(keys)}}[r.Intn(5)])
+	}
+	return verifh.Case{Cfg: cfg, Ops: ops}
+}
+
 func c06Cases() []verifh.Case {
 	var out []verifh.Case
 	k1, k2 := "aa11", "aa22"
@@ -729,6 +784,9 @@ func c06Cases() []verifh.Case {
 	}
 	for i := 0; i < verifh.Scale(80, 1500); i++ {
 		out = append(out, c06RandomCase(r, true))
+	}
+	for i := 0; i < verifh.Scale(60, 1500); i++ {
+		out = append(out, c06LeftoverCase(r))
 	}
 	return out
 }
